@@ -28,12 +28,22 @@ func (e Env) clone() Env {
 type Evaluator struct {
 	G      *gm.Graph
 	Params map[string]any
+	// Dev switches on documented semantic deviations of DAWGS from openCypher. The C01 checker attributes a
+	// disagreement to a known finding iff the SQL result equals the reference result with exactly that deviation on.
+	Dev Deviations
 	// group is set while a projection with aggregation evaluates one group.
 	group []Env
 	// adjacency
 	out, in map[int64][]*gm.Edge
 	nodes   map[int64]*gm.Node
 	edges   map[int64]*gm.Edge
+}
+
+// Deviations are the known semantic deviations (each corresponds to one entry of known_findings.json).
+type Deviations struct {
+	// UndirectedSkipsSelfLoops: an undirected fixed-length step never matches a self-loop relationship (the emitted
+	// SQL carries `n0.id <> n1.id`).
+	UndirectedSkipsSelfLoops bool
 }
 
 func New(g *gm.Graph, params map[string]any) *Evaluator {
